@@ -1,0 +1,36 @@
+// Copyright 2026 CUE Authors
+//
+// Licensed under the Apache License, Version 2.0 (the "License");
+// you may not use this file except in compliance with the License.
+// You may obtain a copy of the License at
+//
+//     http://www.apache.org/licenses/LICENSE-2.0
+//
+// Unless required by applicable law or agreed to in writing, software
+// distributed under the License is distributed on an "AS IS" BASIS,
+// WITHOUT WARRANTIES OR CONDITIONS OF ANY KIND, either express or implied.
+// See the License for the specific language governing permissions and
+// limitations under the License.
+
+//go:build !verif
+
+package simhook
+
+import "sync"
+
+// Enabled reports whether the hooks are compiled in.
+const Enabled = false
+
+func Yield(site string)                {}
+func Spawn(site string) Token          { return 0 }
+func Started(site string, t Token)     {}
+func Woken(site string, l sync.Locker) {}
+func Acquire(site string, res any)     {}
+func Release(site string, res any)     {}
+func Pick(site string, i, n int) int   { return i }
+func At(site string, detail ...string) {}
+func NoYield(delta int)                {}
+func Probe(name string)                {}
+func WrapUnlock(site string, res any, unlock func(), err error) (func(), error) {
+	return unlock, err
+}
